@@ -1,7 +1,7 @@
 SPECIFICATION Spec
 CONSTANTS Depth = 2
- MaxSize = 8
- CoreSize = 5
+ MaxSize = 7
+ CoreSize = 4
 INVARIANT TermOK
 INVARIANT NonVacuous
 CHECK_DEADLOCK FALSE
